@@ -314,7 +314,7 @@ def param_mutations(repo, mod, qual, depth=0, _seen=None, extra=frozenset()):
         elif e.kind == "assign" and e.extra.get("aug") and e.extra.get("old") is not None:
             old = e.extra["old"]
             oa = old.as_atom()
-            if oa and oa[0] in ("call", "sub", "attr", "obj"):          # an array view, not a plain scalar parameter
+            if oa and oa[0] in ("call", "sub", "attr", "obj", "ite"):   # an array view or one of two containers, not a plain scalar parameter
                 hit(alias_roots(old, params, extra), f"in-place {e.extra['aug']} on {str(old)[:60]}", e)
         elif e.kind == "call":
             a = e.value.as_atom()
@@ -350,3 +350,72 @@ def param_mutations(repo, mod, qual, depth=0, _seen=None, extra=frozenset()):
                         if k in sub:
                             hit(alias_roots(v, params, extra), f"passed as {k}= to {tgt[1]}() which modifies it", e)
     return out
+
+
+def stored_param_aliases(mod, cls, meth="__init__"):
+    """{attribute: (parameter, node)} : attributes a method binds to (a view of) one of its array-like parameters
+    (``self.x = p`` / ``np.asarray(p)`` / ``p.reshape(..)``; ``np.array(p)`` and ``p.copy()`` make own copies)."""
+    fn = mod.funcs.get(f"{cls}.{meth}")
+    if fn is None:
+        return {}
+    ev = Ev(fn, mod.ctx).run()
+    params = set(ev.param_names[1:])
+    out = {}
+    for e in ev.events:
+        if e.kind != "store":
+            continue
+        t = e.target.as_atom()
+        if not (t and t[0] == "attr" and t[1].key() == "self"):
+            continue
+        roots = alias_roots(e.value, params)
+        if roots:
+            out[t[2]] = (sorted(roots)[0], e.node)
+        else:
+            out.pop(t[2], None)         # rebound to an own object later in the constructor
+    return out
+
+
+def inplace_attr_writes(mod, cls, attrs):
+    """[(method, attribute, description, node)] : in-place modifications of the payload of self.<attr> anywhere in the class
+    (augmented assignment on the attribute, stores into it, out=, in-place methods)."""
+    out = []
+    for fn in mod.methods(cls):
+        ev = Ev(fn, mod.ctx).run()
+        for e in ev.events:
+            if e.kind in ("aug", "store"):
+                t = e.target.as_atom()
+                if not t:
+                    continue
+                if e.kind == "aug" and t[0] == "attr" and t[1].key() == "self" and t[2] in attrs:
+                    out.append((fn.name, t[2], f"line {getattr(e.node, 'lineno', '?')}: self.{t[2]} {e.op or ''}= ... (in place)", e.node))
+                elif t[0] == "sub":
+                    root = alias_path(t[1])
+                    if root in attrs:
+                        out.append((fn.name, root, f"line {getattr(e.node, 'lineno', '?')}: stores into {str(e.target)[:50]}", e.node))
+            elif e.kind == "call":
+                a = e.value.as_atom()
+                if not a or a[0] != "call":
+                    continue
+                kw = dict(a[3]) if len(a) > 3 and a[3] else {}
+                if "out" in kw and alias_path(kw["out"]) in attrs:
+                    out.append((fn.name, alias_path(kw["out"]), f"line {getattr(e.node, 'lineno', '?')}: out={str(kw['out'])[:40]}", e.node))
+                c = e.target.as_atom() if e.target is not None else None
+                if c and c[0] == "attr" and c[2] in _INPLACE_METHODS - {"append", "extend", "update", "add"} and alias_path(c[1]) in attrs:
+                    out.append((fn.name, alias_path(c[1]), f"line {getattr(e.node, 'lineno', '?')}: .{c[2]}() in place", e.node))
+    return out
+
+
+def ctor_closure(mod, cls):
+    """Methods of the class that run during construction: __init__ and everything it reaches through self.m() calls."""
+    names = {f.name for f in mod.methods(cls)}
+    todo, seen = ["__init__"], set()
+    while todo:
+        m = todo.pop()
+        if m in seen or f"{cls}.{m}" not in mod.funcs:
+            continue
+        seen.add(m)
+        for n in ast.walk(mod.funcs[f"{cls}.{m}"]):
+            if isinstance(n, ast.Call) and isinstance(n.func, ast.Attribute) and isinstance(n.func.value, ast.Name) and n.func.value.id == "self" \
+                    and n.func.attr in names:
+                todo.append(n.func.attr)
+    return seen
